@@ -383,7 +383,8 @@ class ModulesAdd(Contract):
         import itertools
         uids = ["m:s", "m:s:1", "m:s:1:c", "dir/m:s:1", "m", "m:", ":s", "a:b:c:d:e", ""]
         combos = list(itertools.product(["Server", ""], ["x86_64", "src", "zzz"], uids, ["tag", ""], ["p/m.yaml", "/abs", ""],
-                                        ["binary", "debug", "source", "bogus"], [[], ["a-0:1-1.x86_64", "b-0:1-1.noarch"], None, ("t",)]))
+                                        ["binary", "debug", "source", "bogus"],
+                                        [[], ["a-0:1-1.x86_64", "b-0:1-1.noarch"], ["old-0:1-1.x86_64", "n-0:1-1.noarch"], ["d-0:1-1.i686", "d-0:1-1.i686"], None, ("t",)]))
         rng.shuffle(combos)
         for c in combos[:4000]:
             yield dict(zip(self.PARAMS, c))
